@@ -43,7 +43,7 @@ def one(name, slot):
     meta = json.load(open(mp))
     prop = meta["property"]
     wt = os.path.join(BASE, "wt%d" % slot)
-    sh("git checkout -q -- . && git clean -fdq", wt)
+    sh("git reset -q --hard && git clean -fdq", wt)
     rc, o = sh("git apply %s" % os.path.join(d, "patch.diff"), wt)
     how = "git apply"
     if rc != 0:
@@ -75,7 +75,7 @@ def one(name, slot):
                         pass
             res["checks"][c] = r
             lk.release()
-    sh("git checkout -q -- . && git clean -fdq", wt)
+    sh("git reset -q --hard && git clean -fdq", wt)
     meta["final_run"] = res
     meta["caught_by_final"] = sorted(c for c, r in res["checks"].items() if r["caught"])
     json.dump(meta, open(mp, "w"), indent=1)
